@@ -460,6 +460,81 @@ theorem C13_gen_text_size_probe :
     Generated.C13.textSizeProbe = some (([0, 1, 255, 256, 257, 1023, 1024, 1025, 4095, 4096, 4097, 65535, 65536,
       65537, 1048576] : List Nat).map fun (n : Nat) => (n, (n : Int), (n : Int))) := by decide
 
+/-! ### probe facts of round D: attribute addresses, children named like the decoders' own -/
+
+/-- what the reflection decoder stores for `to='raw'` when `jid.Parse raw` is `p` -/
+def probeAttrTo (raw : String) (p : Option String) : Option String :=
+  (reflectStep (fun _ => p) .iq ⟨⟨"", "iq"⟩, "", "", "", "", ""⟩ (attr0 "to" raw)).map (·.to)
+
+/-- … and the stanza-error decoder for `by='raw'` -/
+def probeAttrBy (raw : String) (p : Option String) : Option String :=
+  (decodeErr (fun _ => p) [.start ⟨"", "error"⟩ [attr0 "by" raw], .stop ⟨"", "error"⟩]).map (·.by_)
+
+/-- regenerated by running the real `(*jid.JID).UnmarshalXMLAttr` next to the real `jid.Parse` on the
+address pools and on an address padded with every kind of white space (before, after, both,
+alone): the attribute decoder is `jid.Parse` on the very value, except that the empty value is
+the zero address — nothing is trimmed, folded or defaulted.  That is what the model's reflection
+decoder (`reflectStep`) and error decoder (`decodeErr`) do with the address attributes. -/
+theorem C13_gen_jid_attr_probe :
+    ∃ t, Generated.C13.jidAttrProbe = some t ∧ t.length ≥ 60 ∧
+      t.all (fun r => r.2.1 == (if r.1 = "" then some "" else r.2.2)
+        && r.2.1 == probeAttrTo r.1 r.2.2 && r.2.1 == probeAttrBy r.1 r.2.2) = true :=
+  ⟨_, rfl, by decide, by decide⟩
+
+/-- the probe is not vacuous: it holds addresses with white space at the edges of the resourcepart
+that are accepted *with* that white space, and padded values that are refused -/
+theorem C13_jid_attr_probe_edges :
+    ∃ t, Generated.C13.jidAttrProbe = some t ∧
+      ("romeo@example.net/orchard ", some "romeo@example.net/orchard ", some "romeo@example.net/orchard ") ∈ t ∧
+      ("a@example.net/r ", some "a@example.net/r ", some "a@example.net/r ") ∈ t ∧
+      (" ", none, none) ∈ t ∧ (" a@example.net/r", none, none) ∈ t :=
+  ⟨_, rfl, by decide, by decide, by decide, by decide⟩
+
+def renderTexts (ts : List (String × String)) : String := ",".intercalate (ts.map fun p => p.1 ++ "=" ++ p.2)
+
+/-- one more child `<local xmlns=space xml:lang='en'>x</local>` between the condition and the text -/
+def probeChild (space loc : String) : List Tok :=
+  [.start ⟨space, loc⟩ [langAttr "en"], .chars "x", .stop ⟨space, loc⟩]
+
+def probeStreamChild (space loc : String) : String :=
+  match decodeStreamErr (.start ⟨nsStream, "error"⟩ [] ::
+      [.start ⟨nsStreamErr, "system-shutdown"⟩ [], .stop ⟨nsStreamErr, "system-shutdown"⟩] ++ probeChild space loc
+        ++ textElem nsStreamErr ("de", "t") ++ [.stop ⟨nsStream, "error"⟩]) with
+  | some e => e.err ++ "|" ++ e.content ++ "|" ++ renderTexts e.texts
+  | none => "err"
+
+def probeStanzaChild (space loc : String) : String :=
+  match decodeErr (fun s => some s) (.start ⟨"", "error"⟩ [attr0 "type" "cancel"] ::
+      [.start ⟨nsErr, "gone"⟩ [], .stop ⟨nsErr, "gone"⟩] ++ probeChild space loc
+        ++ textElem nsErr ("de", "t") ++ [.stop ⟨"", "error"⟩]) with
+  | some e => e.by_ ++ "|" ++ e.typ ++ "|" ++ e.cond ++ "|" ++ renderTexts (sortTexts e.texts)
+  | none => "err"
+
+def probeGrid : List (String × String) :=
+  ["", nsStreamErr, nsErr, "urn:example:cluster", nsStream, "jabber:client"].flatMap fun sp =>
+    ["text", "see-other-host", "conflict", "error", "x"].map fun lo => (sp, lo)
+
+/-- regenerated by running the real `stream.Error` decoder on an error with one more child, for every
+(namespace, local name) of a grid that crosses the names the decoder looks for with its own and
+foreign namespaces: the model's `decodeStreamErr` returns the same value on the whole grid -/
+theorem C13_gen_stream_error_child_probe :
+    Generated.C13.streamErrChildProbe = some (probeGrid.map fun p => (p.1, p.2, probeStreamChild p.1 p.2)) := by
+  decide
+
+/-- … and the real `stanza.Error` decoder agrees with `decodeErr` on the same grid -/
+theorem C13_gen_stanza_error_child_probe :
+    Generated.C13.stanzaErrChildProbe = some (probeGrid.map fun p => (p.1, p.2, probeStanzaChild p.1 p.2)) := by
+  decide
+
+/-- what the grid says: a child is a descriptive text only as `text` in the error's OWN namespace;
+in every other namespace a child of any name (also `text`, `see-other-host`, a condition name)
+changes nothing -/
+theorem C13_error_child_only_own_namespace :
+    (∀ p ∈ probeGrid, p.1 ≠ nsStreamErr → probeStreamChild p.1 p.2 = "system-shutdown||de=t") ∧
+    (∀ p ∈ probeGrid, p.1 ≠ nsErr → probeStanzaChild p.1 p.2 = "|cancel|gone|de=t") ∧
+    probeStreamChild nsStreamErr "text" = "system-shutdown||en=x,de=t" ∧
+    probeStanzaChild nsErr "text" = "|cancel|gone|de=t,en=x" := by decide
+
 /-! ### Stream errors -/
 
 /-- balanced for all field contents and any balanced application payload -/
